@@ -800,3 +800,24 @@ Proof.
     + exfalso. apply Hk. reflexivity.
 Qed.
 End PeersExamples.
+
+(* ------------------------------------------------------------------ the Done-before-Add defect *)
+(* peerHandler's select may deliver the Done of a peer before its Add (both channels are ready when
+   a peer disconnects right after its version message).  Then the Add still admits the - already
+   disconnected - peer, and nothing ever removes it: "counters return to zero when the peers have
+   left" is false if "left" is read as "was delivered to Done", in whatever order. *)
+Theorem done_before_add_leaks_refuted :
+  ~ (forall c evs h, wf evs ->
+       (forall p, In p (added evs) -> host p = h -> pkind p <> Persistent -> In (Done p) evs) ->
+       cget (ccount (run c init evs)) h = 0).
+Proof.
+  intros H.
+  specialize (H PeersExamples.c0 [Done PeersExamples.p1; Add PeersExamples.p1 0] 3).
+  assert (W : wf [Done PeersExamples.p1; Add PeersExamples.p1 0]) by PeersExamples.wf_tac.
+  specialize (H W).
+  assert (L : forall p, In p (added [Done PeersExamples.p1; Add PeersExamples.p1 0]) -> host p = 3 ->
+              pkind p <> Persistent -> In (Done p) [Done PeersExamples.p1; Add PeersExamples.p1 0]).
+  { intros p Hin _ _. cbn in Hin. destruct Hin as [E|[]]. subst p. left. reflexivity. }
+  specialize (H L). vm_compute in H. discriminate H.
+Qed.
+
